@@ -18,6 +18,8 @@ P = {
  'C14': ("CRC-32 table code vs bitwise reference, HMAC structure vs RFC 2104 with a hash oracle, encode/decode round trip per attribute group, integrity/fingerprint acceptance and memory safety of decode on arbitrary bounded buffers", "QDataStream/QHostAddress/QByteArray models; SHA-1 as oracle", "4 C14"),
  'C15': ("decode under a key implies a verified MESSAGE-INTEGRITY (the fact handleDatagram relies on) and the RFC 5245 priority formulas", "the ICE pair state machine and the liveness half need sockets/timers/event loop: outside the claim", "4 C15"),
  'C16': ("one step of the real QXmppIncomingClient from an arbitrary private state: nothing is bound, answered or routed before authentication; a routed stanza carries the authenticated address; jid becomes non-empty only through an approved exchange for exactly the parsed user", "socket, timers, password checker, serializeXml and DIGEST-MD5 grammar are models/cuts; routing tables of QXmppServer outside; one recorded known finding (reply applied to the current exchange)", "4 C16"),
+ 'C17': ("per extension field and for all fields at once: where the real QXmppMessage::toXml/serializeExtensions writes it in public, sensitive and combined mode (public part only from the whitelist; All = Public + Sensitive, each element in exactly one part), and that parse(public)+parse(sensitive) restores every getter", "extension classes of other TUs are one-element stand-ins; strings exactly 1 unit; XHTML-IM and OMEMO outside", "4 C17"),
+ 'C08': ("every IQ get/set is answered exactly once (manager contract: true => exactly one reply, false => nothing sent; client fallback error reply on the wire) and result/error/invalid IQs are never answered, for checkIsIqRequest/sendIqReply/handleIqRequests, five real managers and the client's extension chain", "QXmppClient/QXmppOutgoingClient in raw storage; replies recorded through the real getters or the writer tree; <= 2 mock extensions", "4 C08"),
  'C19': ("receiver and sender of in-band bytestreams: one step from an arbitrary job state (accept iff sender, sid, state and 16-bit sequence match; close verdict iff size and hash match) plus two-block histories from the constructor state", "QIODevice, QCryptographicHash object and sendPacket are models; SOCKS5 transfers outside the claim", "4 C19"),
  'C20': ("the string handed to SHA-1 by verificationString is order- and duplicate-blind and equals a reference built by XEP-0115 5.1 inside the bound", "SHA-1 is a recording oracle; tiny alphabets", "4 C20"),
 }
